@@ -1184,3 +1184,323 @@ def replay(chk: Check, path: str) -> int:
         print(f"VIOLATION property=C01 replay={path} no-failing-input-found")
         return 1
     return 0
+
+
+# ---------------------------------------------------------------------------------------------------------------------
+# module-level suite: `module.clone()` itself (Gen/ModCloneGen.lean, Heap.moduleCloneRule)
+# ---------------------------------------------------------------------------------------------------------------------
+# The rule proved equal to the generated one (Proofs/ModCloneGenEq.lean): parameter / buffer tensors FRESH, every
+# container of init_dict at every nesting depth FRESH, the two method-name lists SHARED (by reference, as the source
+# says), values equal.  Measured here on real modules of every kind; then the clone is mutated in place (an advertised
+# mutation method, a parameter write, an edit of every recorded list / dict) and the original must not move.
+
+MODULE_RULE = {"params": "fresh", "initArg": "fresh", "methodLists": "fresh"}
+
+
+def _module_zoo():
+    import numpy as np
+    import torch
+    from gymnasium import spaces
+    box = spaces.Box(-1.0, 1.0, (4,), np.float32)
+    img = spaces.Box(0.0, 1.0, (2, 12, 12), np.float32)
+    dct = spaces.Dict({"v": spaces.Box(-1.0, 1.0, (3,), np.float32), "i": spaces.Box(0.0, 1.0, (1, 12, 12), np.float32)})
+    disc, cont = spaces.Discrete(3), spaces.Box(-1.0, 1.0, (2,), np.float32)
+
+    def mlp():
+        from agilerl.modules.mlp import EvolvableMLP
+        return EvolvableMLP(num_inputs=4, num_outputs=2, hidden_size=[8, 8])
+
+    def cnn():
+        from agilerl.modules.cnn import EvolvableCNN
+        return EvolvableCNN(input_shape=[2, 12, 12], num_outputs=3, channel_size=[4, 4], kernel_size=[3, 3], stride_size=[1, 1])
+
+    def cnn3d():
+        from agilerl.modules.cnn import EvolvableCNN
+        return EvolvableCNN(input_shape=[2, 8, 8], num_outputs=3, channel_size=[4], kernel_size=[3], stride_size=[1],
+                            block_type="Conv3d", sample_input=torch.zeros(1, 2, 2, 8, 8))
+
+    def lstm():
+        from agilerl.modules.lstm import EvolvableLSTM
+        return EvolvableLSTM(input_size=4, hidden_size=8, num_outputs=2)
+
+    def simba():
+        from agilerl.modules.simba import EvolvableSimBa
+        return EvolvableSimBa(num_inputs=4, num_outputs=2, hidden_size=8, num_blocks=2)
+
+    def resnet():
+        from agilerl.modules.resnet import EvolvableResNet
+        return EvolvableResNet(input_shape=[2, 12, 12], num_outputs=3, channel_size=4, kernel_size=3, stride_size=1, num_blocks=1)
+
+    def multi():
+        from agilerl.modules.multi_input import EvolvableMultiInput
+        return EvolvableMultiInput(observation_space=dct, num_outputs=3, latent_dim=8)
+
+    def net(modname, cls, obs, **kw):
+        def build():
+            import importlib
+            return getattr(importlib.import_module(modname), cls)(obs, **kw)
+        return build
+    Q, A, V = "agilerl.networks.q_networks", "agilerl.networks.actors", "agilerl.networks.value_networks"
+    return {
+        "mlp": mlp, "cnn": cnn, "cnn3d": cnn3d, "lstm": lstm, "simba": simba, "resnet": resnet, "multi": multi,
+        "QNetwork": net(Q, "QNetwork", box, action_space=disc),
+        "QNetwork-img": net(Q, "QNetwork", img, action_space=disc),
+        "QNetwork-dict": net(Q, "QNetwork", dct, action_space=disc),
+        "RainbowQNetwork": net(Q, "RainbowQNetwork", box, action_space=disc, support=torch.linspace(-2.0, 2.0, 5), num_atoms=5),
+        "ContinuousQNetwork": net(Q, "ContinuousQNetwork", box, action_space=cont),
+        "DeterministicActor": net(A, "DeterministicActor", box, action_space=cont),
+        "StochasticActor": net(A, "StochasticActor", box, action_space=disc),
+        "StochasticActor-cont": net(A, "StochasticActor", img, action_space=cont),
+        "ValueNetwork": net(V, "ValueNetwork", dct),
+        "EvolvableDistribution": lambda: net(A, "StochasticActor", box, action_space=cont)().head_net,
+    }
+
+
+def _init_containers(obj, depth=0, path="", out=None):
+    """(depth, path, id, kind) of every dict / list / ndarray / tensor among the recorded constructor arguments"""
+    import numpy as np
+    import torch
+    out = [] if out is None else out
+    if isinstance(obj, dict):
+        items = list(obj.items())
+    elif isinstance(obj, (list, tuple)):
+        items = list(enumerate(obj))
+    else:
+        items = []
+    for k, v in items:
+        p = f"{path}/{k}"
+        if isinstance(v, (dict, list)):
+            out.append((depth, p, id(v), type(v).__name__))
+            _init_containers(v, depth + 1, p, out)
+        elif isinstance(v, tuple):
+            _init_containers(v, depth, p, out)
+        elif isinstance(v, torch.Tensor):
+            out.append((depth, p, ("storage", v.untyped_storage().data_ptr()), "tensor"))
+        elif isinstance(v, np.ndarray):
+            out.append((depth, p, id(v), "ndarray"))
+    return out
+
+
+def _canon(v):
+    import numpy as np
+    import torch
+    if isinstance(v, dict):
+        return {str(k): _canon(x) for k, x in sorted(v.items(), key=lambda kv: str(kv[0]))}
+    if isinstance(v, (list, tuple)):
+        return [_canon(x) for x in v]
+    if isinstance(v, torch.Tensor):
+        return ["tensor", v.detach().cpu().tolist()]
+    if isinstance(v, np.ndarray):
+        return ["ndarray", v.tolist()]
+    if isinstance(v, (int, float, str, bool, type(None))):
+        return v
+    if isinstance(v, type):
+        return v.__name__
+    return repr(v)
+
+
+def _init_dict(m):
+    try:
+        return m.init_dict
+    except AttributeError:               # EvolvableDistribution: constructor arguments are not all attributes
+        return {}
+
+
+def _storages(m):
+    return {t.untyped_storage().data_ptr() for t in list(m.parameters()) + list(m.buffers()) if t.numel()}
+
+
+def _module_snapshot(m):
+    import torch
+    return {"init": _canon(_init_dict(m)), "state": {k: v.detach().clone() for k, v in m.state_dict().items()},
+            "methods": (list(m._layer_mutation_methods), list(m._node_mutation_methods))}
+
+
+def _snapshot_diff(a, b):
+    import torch
+    out = []
+    if a["init"] != b["init"]:
+        ks = [k for k in a["init"] if a["init"].get(k) != b["init"].get(k)] if isinstance(a["init"], dict) else ["?"]
+        out.append(f"init_dict changed under {ks[:4]}")
+    if list(a["state"]) != list(b["state"]) or any(not torch.equal(a["state"][k], b["state"][k]) for k in a["state"]):
+        out.append("state_dict changed")
+    if a["methods"] != b["methods"]:
+        out.append("mutation-method lists changed")
+    return out
+
+
+def run_module_case(kind: str, seed: int, zoo=None):
+    """clone one real module; measure against MODULE_RULE; mutate the clone in place; the original must not move"""
+    import numpy as np
+    import torch
+    zoo = zoo or _module_zoo()
+    rng = random.Random(seed)
+    torch.manual_seed(seed), np.random.seed(seed)
+    m = zoo[kind]()
+    with torch.no_grad():
+        for p in m.parameters():
+            p.add_(torch.randn(p.shape, generator=torch.Generator().manual_seed(seed)) * 0.1)
+    c = m.clone()
+    is_dist = type(m).__name__ == "EvolvableDistribution"
+    problems, diffs, notes = [], [], []
+    measured = {}
+    measured["params"] = "shared" if _storages(m) & _storages(c) else "fresh"
+    dm, dc = _init_dict(m), _init_dict(c)            # kept alive: ids of temporaries would be re-used
+    cm, cc = _init_containers(dm), _init_containers(dc)
+    ids_m = {x[2]: x for x in cm}
+    shared = [x for x in cc if x[2] in ids_m]
+    measured["initArg"] = "shared" if shared else "fresh"
+    measured["methodLists"] = "shared" if (m._layer_mutation_methods is c._layer_mutation_methods
+                                           or m._node_mutation_methods is c._node_mutation_methods) else "fresh"
+    depth = max([x[0] for x in cm], default=-1) + 1
+    rule = dict(MODULE_RULE, methodLists="fresh") if is_dist else MODULE_RULE
+    for part in ("params", "initArg", "methodLists"):
+        if measured[part] != rule[part]:
+            diffs.append(f"{part}: generated rule says {rule[part]}, measured {measured[part]}"
+                         + (f" ({[(d, p) for d, p, _, _ in shared][:4]})" if part == "initArg" else ""))
+    if measured["params"] == "shared":
+        problems.append("clone shares parameter / buffer storage with the original")
+    if measured["methodLists"] == "shared":
+        problems.append("clone shares its mutation-method name lists with the original (extended in place by __setattr__)")
+    if shared:
+        problems.append(f"clone's init_dict shares containers with the original: {[(d, p, k) for d, p, _, k in shared][:4]}")
+    # faithful
+    sm, sc = _module_snapshot(m), _module_snapshot(c)
+    d = _snapshot_diff(sm, sc)
+    if is_dist and "mutation-method lists changed" in d:
+        # reported, undecided: EvolvableDistribution.clone() wraps a clone of the (mutation-disabled) wrapped network,
+        # so the new wrapper advertises no mutation methods; StochasticActor.clone does not go through this path
+        d.remove("mutation-method lists changed")
+        notes.append("EvolvableDistribution.clone(): the clone advertises no mutation methods (parent: "
+                     f"{sm['methods'][0]} / {sm['methods'][1]})")
+    if d:
+        problems.append(f"clone differs from the original right after clone(): {d}")
+    if type(c) is not type(m):
+        problems.append("clone has another class")
+    # independent: mutate the clone in place
+    done = []
+    methods = list(getattr(c, "mutation_methods", []))
+    if methods:
+        name = rng.choice(sorted(methods))
+        try:
+            c.get_mutation_methods()[name]()
+            done.append(name)
+        except Exception as e:  # noqa: BLE001   (a mutation the module refuses is not this property's business)
+            done.append(f"{name}:{type(e).__name__}")
+    with torch.no_grad():
+        for t in list(c.parameters()) + list(c.buffers()):
+            if t.is_floating_point():
+                t.add_(1.0)
+
+    def scribble(v):
+        if isinstance(v, dict):
+            for x in list(v.values()):
+                scribble(x)
+            v["__verif__"] = [1]
+        elif isinstance(v, list):
+            for x in v:
+                scribble(x)
+            if v and isinstance(v[0], int) and not isinstance(v[0], bool):
+                v[0] += 8
+            v.append(7)
+        elif isinstance(v, tuple):
+            for x in v:
+                scribble(x)
+        elif isinstance(v, torch.Tensor) and v.is_floating_point():
+            with torch.no_grad():
+                v.add_(1.0)
+    for v in dc.values():
+        scribble(v)
+    d = _snapshot_diff(sm, _module_snapshot(m))
+    if d:
+        problems.append(f"mutating the clone in place ({done}, parameter write, edit of its recorded lists) changed the original: {d}")
+    return {"problems": problems, "diffs": diffs, "measured": measured, "depth": depth, "mutated": done,
+            "containers": len(cm), "notes": notes}
+
+
+def probe_method_lists(chk: Check) -> None:
+    """regression probe for C01-mutation-method-lists-aliased (repaired): a nested module assigned to a CLONE under a
+    new name extends the clone's method-name lists in place (`__setattr__`); the parent's lists must not move"""
+    from agilerl.modules.mlp import EvolvableMLP
+    m = EvolvableMLP(num_inputs=4, num_outputs=2, hidden_size=[8, 8])
+    before = (list(m._layer_mutation_methods), list(m._node_mutation_methods))
+    c = m.clone()
+    c.sub = EvolvableMLP(num_inputs=2, num_outputs=2, hidden_size=[4])
+    after = (list(m._layer_mutation_methods), list(m._node_mutation_methods))
+    chk.case(["probe", "method-lists"], nontrivial=True, tags=["probe-method-lists"])
+    if after != before:
+        chk.finding("C01-mutation-method-lists-aliased",
+                    f"m = EvolvableMLP(4, 2, [8, 8]); c = m.clone(); c.sub = EvolvableMLP(2, 2, [4]) changed the PARENT's "
+                    f"mutation-method lists from {before} to {after}",
+                    {"suite": "module-clone", "kind": "mlp", "seed": 0, "probe": "method-lists"})
+
+
+def run_module_suite(chk: Check) -> None:
+    probe_method_lists(chk)
+    zoo = _module_zoo()
+    n = ndiff = 0
+    built = 0
+    for kind in zoo:
+        seed = chk.rng.randrange(1 << 20)
+        try:
+            res = run_module_case(kind, seed, zoo)
+        except (TypeError, ImportError, AttributeError) as e:
+            chk.notes.append(f"module-clone: {kind} not built ({type(e).__name__}: {str(e)[:80]})")
+            continue
+        built += 1
+        n += 1
+        chk.case(["module-clone", kind, seed], nontrivial=True,
+                 sample={"kind": kind, "depth": res["depth"], "containers": res["containers"], "mutated": res["mutated"]},
+                 tags=[f"module-{kind}", f"module-depth-{res['depth']}"] + [f"module-{k}-{v}" for k, v in res["measured"].items()])
+        chk.notes.extend(f"module-clone: {x}" for x in res["notes"])
+        rep = {"suite": "module-clone", "kind": kind, "seed": seed}
+        if res["problems"]:
+            ndiff += bool(res["diffs"])
+            chk.violation(f"module.clone() of {kind}: " + "; ".join(res["problems"])[:400], rep)
+        elif res["diffs"]:
+            ndiff += 1
+            chk.violation(f"module.clone() of {kind} does not follow the rule generated from its source: "
+                          + "; ".join(res["diffs"])[:300], rep, no_input=True)
+    chk.suite("module-clone", n, ndiff)
+    if built < 10:
+        raise InfraError(f"C01 module-clone: only {built} module kinds could be built")
+
+
+_run_histories = run
+_pre_gate_agent = pre_gate
+_replay_histories = replay
+
+
+def pre_gate(chk: Check) -> None:  # noqa: F811
+    _pre_gate_agent(chk)
+    import common
+    import py2lean_modclone
+    common.translation_gate(chk, py2lean_modclone, "Gen/ModCloneGen.lean",
+                            ["Gen.ModCloneGen", "Proofs.ModCloneGenEq", "Props.C01"],
+                            "what module.clone() does to each group of mutable objects of a module: get_init_dict / "
+                            "init_dict, EvolvableModule.clone, EvolvableDistribution.clone, overrides in "
+                            "EvolvableNetwork / ModuleDict")
+
+
+def run(chk: Check) -> None:  # noqa: F811
+    run_module_suite(chk)
+    _run_histories(chk)
+    chk.rule += ("; module-clone: every module / network kind is cloned, tensor storages and the ids of every container "
+                 "of init_dict at every depth compared with the rule generated from EvolvableModule.clone, then the "
+                 "clone is mutated in place and the original must not move")
+
+
+def replay(chk: Check, path: str) -> int:  # noqa: F811
+    c = json.loads(open(path).read())
+    c = c.get("replay", c)
+    if c.get("suite") != "module-clone":
+        return _replay_histories(chk, path)
+    res = run_module_case(c["kind"], c["seed"])
+    print(json.dumps(res, indent=1, default=str))
+    if res["problems"]:
+        print(f"VIOLATION property=C01 replay={path}")
+        return 1
+    if res["diffs"]:
+        print(f"VIOLATION property=C01 replay={path} no-failing-input-found")
+        return 1
+    return 0
